@@ -42,4 +42,5 @@ run C34 && mut C34 protocol/relaypolicy/policy.go 'input.AttemptNumber >= p.conf
 run C36 && mut C36 protocol/chainlib/chain_fetcher.go '	relayData.SeenBlock = 0                         // remove seen block
 ' ''
 run C29 && mut C29 protocol/rpcprovider/rewardserver/reward_server.go 'if cuSumStored >= proof.CuSum {' 'if cuSumStored <= proof.CuSum {'
+run C33 && mut C33 protocol/relaycore/relay_processor.go 'if nilReplies >= crossValidationSize && maxCount < crossValidationSize {' 'if nilReplies >= crossValidationSize && maxCount <= crossValidationSize {'
 exit 0
